@@ -2,7 +2,7 @@ package main
 
 // C19 — containers enclose their children and siblings do not overlap.
 //
-// Case classes (files c19.go, c19_gen.go, c19_nest.go, c19_kf.go, c19_shrink.go):
+// Case classes (files c19.go, c19_gen.go, c19_grid.go, c19_nest.go, c19_kf.go, c19_shrink.go):
 //   Pipe            a d2 script through the real pipeline d2lib.Compile (compiler, real ruler, LayoutNested, dagre or
 //                   ELK, d2near, d2grid, d2sequence, exporter).  Observed: the exported d2target.Diagram shape boxes
 //                   (integers) arranged as a forest by Object.Parent of the laid-out graph, and every graph the engine
@@ -10,6 +10,8 @@ package main
 //                   final forest (codes 10, 11) and the engine-level hypotheses on the recorded graphs (codes 3, 4).
 //   Nest            the real exported FitToGraph / InjectNested / PositionNested on synthetic and on real nested
 //                   graphs (c19_nest.go): correspondence with the Coq model (code 1), H_nested_in_box (code 2).
+// Known-finding ids are attached per case only when every violation in it is explained by a recorded defect
+// (c19_kf.go: exact per-violation signatures + control layouts); anything else is reported.
 // Decisions: boxes only (labels, icons, 3d / multiple offsets are not boxes); top-level shapes (incl. constant nears
 // and near: <object> shapes) have no container but are siblings; the box of a sequence diagram is a normal shape,
 // everything below it is excluded (the Coq predicate skips the children of a node flagged seq).
@@ -37,7 +39,7 @@ import (
 )
 
 func init() {
-	register(&Prop{ID: "C19", Module: "V.C19.Check", Gen: c19Gen, Quick: 130, Thorough: 1500, Shard: 16})
+	register(&Prop{ID: "C19", Module: "V.C19.Check", Gen: c19Gen, Quick: 180, Thorough: 1500, Shard: 16})
 }
 
 var c19Ruler *textmeasure.Ruler
@@ -281,11 +283,11 @@ func c19Measure(r *Rng, n int) {
 				continue
 			}
 			total[eng]++
-			if pre := c19KF(g0, nil, eng); os.Getenv("C19_FOCUS") != "" && (c19Has(pre, c19KFGridExplicit) || c19Has(pre, c19KFGridPerson) || c19Has(pre, c19KFNearsSame)) {
+			if pre := c19Candidates(g0, nil, eng); os.Getenv("C19_FOCUS") != "" && (c19Has(pre, c19KFGridExplicit) || c19Has(pre, c19KFGridPerson) || c19Has(pre, c19KFNearsSame)) {
 				continue
 			}
 			keys, fail, gf := c19Keys(sc, eng)
-			if kf := c19KF(g0, gf, eng); len(kf) > 0 {
+			if kf := c19Candidates(g0, gf, eng); len(kf) > 0 {
 				tab[eng+" tagged "+strings.Join(kf, "+")]++
 				if len(keys) > 0 {
 					tab[eng+" tagged "+strings.Join(kf, "+")+" FAILING"]++
@@ -300,10 +302,10 @@ func c19Measure(r *Rng, n int) {
 					dd, ee := d, eng
 					small := c19Shrink(dd, func(sc string) bool {
 						ks, fail, _ := c19Keys(sc, ee)
-						return fail == "" && len(ks) > 0 && c19Compile(sc) != nil && !c19Has(c19KF(c19Compile(sc), nil, ee), c19KFDagreAncEdge) == !c19Has(kf, c19KFDagreAncEdge)
+						return fail == "" && len(ks) > 0 && c19Compile(sc) != nil && !c19Has(c19Candidates(c19Compile(sc), nil, ee), c19KFDagreAncEdge) == !c19Has(kf, c19KFDagreAncEdge)
 					}, 120)
 					ks, _, gf2 := c19Keys(small.script(), ee)
-					fmt.Fprintf(os.Stderr, "=== FOCUS %s tags=%v -> %v\n", ee, kf, c19KF(c19Compile(small.script()), gf2, ee))
+					fmt.Fprintf(os.Stderr, "=== FOCUS %s tags=%v -> %v\n", ee, kf, c19Candidates(c19Compile(small.script()), gf2, ee))
 					for _, v := range ks {
 						fmt.Fprintf(os.Stderr, "%s\n", v)
 					}
@@ -386,20 +388,20 @@ func c19Debug(path string) {
 				fmt.Fprintf(os.Stderr, "  ENGINE-CALL %d VIOL %s %s / %s by %.1f\n", ci, v.Kind, c.Shapes[v.A].ID, c.Shapes[v.B].ID, v.Amount)
 			}
 		}
+		cs := c19PipeCase(string(b), eng, "debug")
+		fmt.Fprintf(os.Stderr, "  KF=%v not-explained=%v\n", cs.KF, cs.Impl.(map[string]any)["not_explained_by_a_known_finding"])
 	}
 }
 
 // c19PipeCase runs one script through the real pipeline with one engine.
 func c19PipeCase(script, engine, class string) (cs Case) {
 	cs = Case{Class: class + "/" + engine, Input: map[string]any{"script": script, "engine": engine}, Key: engine + "\n" + script}
-		diag, g, calls, fail := c19Pipeline(script, engine)
+	diag, g, calls, fail := c19Pipeline(script, engine)
 	if fail != "" {
 		cs.ImplFail = []string{fail}
 		cs.Coq = "Pipe [] []"
-		cs.KF = c19KF(c19Compile(script), nil, engine)
 		return cs
 	}
-	cs.KF = c19KF(c19Compile(script), g, engine)
 	shapes, ff := c19Final(diag, g)
 	if ff != "" {
 		cs.ImplFail = append(cs.ImplFail, ff)
@@ -431,7 +433,17 @@ func c19PipeCase(script, engine, class string) (cs Case) {
 			nChecked++
 		}
 	}
+	// known-finding ids only when every violation (final diagram + every engine graph) is explained by a recorded defect
+	groups := [][]c19Shape{shapes}
+	for _, c := range calls {
+		groups = append(groups, c.Shapes)
+	}
+	var unexplained []string
+	cs.KF, unexplained = c19KFFor(script, engine, g, groups)
 	cs.Impl = map[string]any{"shapes": len(shapes), "contained_shapes": nChecked, "engine_calls": len(calls), "violations": viol, "engine_level_violations": nEngineViol}
+	if len(unexplained) > 0 {
+		cs.Impl.(map[string]any)["not_explained_by_a_known_finding"] = unexplained
+	}
 	cs.Nontrivial = nChecked > 0
 	return cs
 }
@@ -446,7 +458,7 @@ func c19Gen(r *Rng, tier string, n int) []Case {
 		return nil
 	}
 	if os.Getenv("C19_CORPUS") != "" {
-		for i, c := range c19Corpus() {
+		for i, c := range append(c19Corpus(), c19GridOutsideCorpus()...) {
 			for _, eng := range []string{"dagre", "elk"} {
 				cs := c19PipeCase(c.script, eng, c.class)
 				fmt.Fprintf(os.Stderr, "%2d %-36s %-5s kf=%v fail=%v impl=%v\n", i, c.class, eng, cs.KF, cs.ImplFail, cs.Impl)
@@ -458,15 +470,33 @@ func c19Gen(r *Rng, tier string, n int) []Case {
 	var out []Case
 	engines := []string{"dagre", "elk"}
 	// (c) the real pipeline: corpus first (both engines), then random diagrams (both engines each)
-	nSyn := n * 9 / 20
+	nSyn := n * 3 / 10
 	nReal := n / 10
 	nPipe := n - nSyn - nReal
-	for _, c := range c19Corpus() {
+	corpus := c19Corpus()
+	for i, c := range c19GridOutsideCorpus() {
+		if tier != "thorough" {
+			c.engine = engines[i%2] // the grid layout does not depend on the engine: alternate in the quick tier
+		}
+		corpus = append(corpus, c)
+	}
+	for _, c := range corpus {
 		for _, eng := range engines {
 			if c.engine != "" && c.engine != eng {
 				continue
 			}
 			out = append(out, c19PipeCase(c.script, eng, c.class))
+		}
+	}
+	// random grids whose cells have outside labels / icons larger than the cell
+	for made, want := 0, n/18; made < want; {
+		sc := c19GridOutsideRandom(r.Fork())
+		if c19Compile(sc) == nil {
+			continue
+		}
+		made++
+		for _, eng := range engines {
+			out = append(out, c19PipeCase(sc, eng, "grid-outside-random"))
 		}
 	}
 	k := c19DefaultKnobs()
@@ -485,7 +515,7 @@ func c19Gen(r *Rng, tier string, n int) []Case {
 	kn := c19DefaultKnobs()
 	kn.pGrid, kn.pSeq, kn.pGridExplicit = 0.55, 0.3, 0.15
 	nestReal := func(sc, eng string, cx, cy float64, class string) bool {
-		coq, impl, fails, skip := c19NestReal(sc, "t0", eng, cx, cy)
+		coq, impl, fails, skip := c19NestReal(sc, "t0", eng, cx, cy, nil)
 		if skip {
 			return false
 		}
@@ -493,9 +523,27 @@ func c19Gen(r *Rng, tier string, n int) []Case {
 		if coq == "" {
 			cs.Coq = "Pipe [] []"
 		}
-		for _, id := range c19KF(c19Compile(sc), nil, eng) {
-			if id == c19KFGridExplicit || id == c19KFGridPerson {
-				cs.KF = append(cs.KF, id)
+		// a failed H_nested_in_box carries a known-finding id only when the grid container ITSELF has the trigger, the
+		// contents stick out the way the defect predicts, and the control without the trigger satisfies the hypothesis
+		if impl != nil && impl["hyp_ok"] == false && impl["out_neg"] == false {
+			anyExplicit, anyPerson := false, false
+			if g0 := c19Compile(sc); g0 != nil {
+				for _, o := range g0.Objects {
+					anyExplicit = anyExplicit || (c19IsExplicitGrid(o) && len(o.ChildrenArray) > 0)
+					anyPerson = anyPerson || (c19IsPersonGrid(o) && len(o.ChildrenArray) > 0)
+				}
+			}
+			control := func(mutate func(*d2graph.Graph)) bool {
+				_, ci, cf, cskip := c19NestReal(sc, "t0", eng, cx, cy, mutate)
+				return !cskip && len(cf) == 0 && ci != nil && ci["hyp_ok"] == true
+			}
+			switch {
+			case anyExplicit && control(c19ClearExplicitGrids):
+				cs.KF = []string{c19KFGridExplicit}
+			case anyPerson && control(c19UnpersonGrids):
+				cs.KF = []string{c19KFGridPerson}
+			case anyExplicit && anyPerson && control(func(g *d2graph.Graph) { c19ClearExplicitGrids(g); c19UnpersonGrids(g) }):
+				cs.KF = []string{c19KFGridExplicit, c19KFGridPerson}
 			}
 		}
 		out = append(out, cs)
@@ -506,8 +554,8 @@ func c19Gen(r *Rng, tier string, n int) []Case {
 		"t0: {grid-rows: 2; grid-gap: 0; a; b; c: {x; y; x -> y}; d: {grid-columns: 2; p; q}}\n",
 		"t0: {shape: sequence_diagram; alice -> bob: hello; bob -> alice: \"a long answer that widens the diagram\"; bob.t: {bob.t -> alice}}\n",
 		"t0: {shape: cloud; grid-columns: 3; horizontal-gap: 120; a; b; c; d}\n",
-		"t0: {\n width: 20\n grid-columns: 1\n a\n}\n",                  // known finding: explicit size below the content
-		"t0: {\n width: 400\n height: 400\n grid-columns: 1\n a\n}\n",   // near miss
+		"t0: {\n width: 20\n grid-columns: 1\n a\n}\n",                       // known finding: explicit size below the content
+		"t0: {\n width: 400\n height: 400\n grid-columns: 1\n a\n}\n",        // near miss
 		"t0: {\n shape: person\n grid-rows: 2\n grid-columns: 2\n a; b\n}\n", // known finding: person-shaped grid
 	} {
 		if made < nReal && nestReal(sc, engines[i%2], float64(100*i), float64(-50*i), "nest-real-corpus") {
@@ -584,6 +632,8 @@ func c19Corpus() []c19CorpusEntry {
 		{"b1: {\n c0: {\n  label: \"a long outside label here\"\n  label.near: outside-right-top\n }\n c1\n c2\n}\nb1.c1 -> b1.c2\n", "kf-dagre-descendant-edge-nearmiss", ""},
 		{"t1: {\n a2: {\n  label: \"load balancer (eu-west-1)\"\n  label.near: outside-right-top\n  b2\n }\n a4\n}\nt2\nt1.a4 -> t1.a2.b2: \"two\\nlines\"\n", "kf-dagre-grown-container", ""},
 		{"t1: {\n a2: {\n  label: \"load balancer (eu-west-1)\"\n  b2\n }\n a4\n}\nt2\nt1.a4 -> t1.a2.b2: \"two\\nlines\"\n", "kf-dagre-grown-container-nearmiss", ""},
+		{"t0: {\n  label: \"users\"\n  label.near: outside-left-center\n}\nt4 -> t1.a0.b0\nt1.a0.b0.c1 -> t3.a2\nt0 -> t1.a0.b0\nt1.a0 <- t3.a0\n", "kf-dagre-left-behind", ""},
+		{"t0: {\n  label: \"users\"\n}\nt4 -> t1.a0.b0\nt1.a0.b0.c1 -> t3.a2\nt0 -> t1.a0.b0\nt1.a0 <- t3.a0\n", "kf-dagre-left-behind-nearmiss", ""},
 	}
 	return out
 }
